@@ -142,6 +142,8 @@ func (e *Engine) callRaw(fn *ssa.Function, args []Value, env []Value, isInit boo
 	}
 	defer func() { e.path.callDepth-- }()
 	e.h.Funcs[fn.String()]++
+	e.hbPush(fn)
+	defer e.hbPop()
 	fr := &Frame{fn: fn, regs: map[ssa.Value]Value{}, env: env}
 	for i, p := range fn.Params {
 		fr.regs[p] = args[i]
@@ -251,7 +253,7 @@ func (e *Engine) exec(fr *Frame, ins ssa.Instruction) {
 		}
 		e.h.GoSites[posOf(e.prog, x.Pos())+" "+name]++
 		e.tracef("go %s", name)
-		e.spawned = append(e.spawned, spawnRec{fn: fn, args: args, call: &x.Call})
+		e.spawned = append(e.spawned, spawnRec{fn: fn, args: args, call: &x.Call, hbEv: e.hbAdd('g', nil, posOf(e.prog, x.Pos()), "go")})
 	case *ssa.ChangeType:
 		fr.regs[x] = e.get(fr, x.X)
 	case *ssa.ChangeInterface:
@@ -337,6 +339,9 @@ func (e *Engine) exec(fr *Frame, ins ssa.Instruction) {
 		m := e.get(fr, x.X)
 		switch mv := m.(type) {
 		case MapV:
+			if e.hb.on {
+				e.hbMap('R', mv.M, posOf(e.prog, x.Pos()))
+			}
 			v, ok := e.mapLookup(mv, e.get(fr, x.Index))
 			if !ok {
 				v = e.zero(x.X.Type().Underlying().(*types.Map).Elem())
@@ -354,10 +359,16 @@ func (e *Engine) exec(fr *Frame, ins ssa.Instruction) {
 		if m.M == nil {
 			e.progPanic("assignment to entry in nil map at " + posOf(e.prog, x.Pos()))
 		}
+		if e.hb.on {
+			e.hbMap('W', m.M, posOf(e.prog, x.Pos()))
+		}
 		e.mapUpdate(m, e.get(fr, x.Key), e.get(fr, x.Value))
 	case *ssa.Range:
 		switch mv := e.get(fr, x.X).(type) {
 		case MapV:
+			if e.hb.on {
+				e.hbMap('R', mv.M, posOf(e.prog, x.Pos()))
+			}
 			it := &mapIter{}
 			if mv.M != nil {
 				it.entries = append(it.entries, mv.M.entries...)
@@ -384,6 +395,9 @@ func (e *Engine) exec(fr *Frame, ins ssa.Instruction) {
 	case *ssa.Extract:
 		fr.regs[x] = e.get(fr, x.Tuple).(TupleV)[x.Index]
 	case *ssa.Store:
+		if e.hb.on {
+			e.hbMem('W', e.get(fr, x.Addr).(PtrV).L, posOf(e.prog, x.Pos()))
+		}
 		e.store(e.get(fr, x.Addr).(PtrV).L, e.get(fr, x.Val))
 	case *ssa.Send:
 		ch := e.get(fr, x.Chan).(ChanV)
@@ -402,6 +416,7 @@ type spawnRec struct {
 	fn   Value
 	args []Value
 	call *ssa.CallCommon
+	hbEv int
 }
 
 type mapIter struct {
@@ -721,6 +736,9 @@ func (e *Engine) unop(fr *Frame, x *ssa.UnOp) Value {
 		if p.L == nil {
 			e.progPanic("nil pointer dereference at " + posOf(e.prog, x.Pos()))
 		}
+		if e.hb.on {
+			e.hbMem('R', p.L, posOf(e.prog, x.Pos()))
+		}
 		return e.load(p.L)
 	case token.NOT:
 		return tb.Not(v.(*Term))
@@ -843,6 +861,9 @@ func (e *Engine) builtin(name string, args []Value, c *ssa.CallCommon) Value {
 		switch t := args[1].(type) {
 		case SliceV:
 			for i := 0; i < t.Len; i++ {
+				if e.hb.on {
+					e.hbMem('R', t.B.cells[t.Off+i], "append(src)")
+				}
 				add = append(add, e.load(t.B.cells[t.Off+i]))
 			}
 			if t.B != nil {
@@ -864,6 +885,9 @@ func (e *Engine) builtin(name string, args []Value, c *ssa.CallCommon) Value {
 		}
 		if s.Len+len(add) <= s.Cap {
 			for i, v := range add {
+				if e.hb.on {
+					e.hbMem('W', s.B.cells[s.Off+s.Len+i], "append")
+				}
 				e.store(s.B.cells[s.Off+s.Len+i], v)
 			}
 			return SliceV{B: s.B, Off: s.Off, Len: s.Len + len(add), Cap: s.Cap}
@@ -889,14 +913,23 @@ func (e *Engine) builtin(name string, args []Value, c *ssa.CallCommon) Value {
 			n = min(dst.Len, src.Len)
 			vals := make([]Value, n)
 			for i := 0; i < n; i++ {
+				if e.hb.on {
+					e.hbMem('R', src.B.cells[src.Off+i], "copy")
+				}
 				vals[i] = e.load(src.B.cells[src.Off+i])
 			}
 			for i := 0; i < n; i++ {
+				if e.hb.on {
+					e.hbMem('W', dst.B.cells[dst.Off+i], "copy")
+				}
 				e.store(dst.B.cells[dst.Off+i], vals[i])
 			}
 		}
 		return e.intConst(64, int64(n))
 	case "delete":
+		if e.hb.on {
+			e.hbMap('W', args[0].(MapV).M, "delete")
+		}
 		e.mapDelete(args[0].(MapV), args[1])
 		return nil
 	case "close":
